@@ -13,6 +13,8 @@ for d in seeded/*/; do
   n=$(basename "$d"); pid=${n:0:3}
   [ -f "$d/patch.diff" ] || continue
   if ! git -C /repo apply "$PWD/$d/patch.diff" 2>"$tmp/err"; then echo "apply failed: $n: $(cat $tmp/err)"; continue; fi
+  # seeds that another property's check reports (the mechanism they break is anchored there)
+  case "$n" in C04a) pid=C03;; esac
   ./bin/verifcheck -property "$pid" -no-evidence -json "$tmp/$n.json" >/dev/null 2>&1
   git -C /repo checkout -- .
   keys=$(python3 - "$tmp/$n.json" <<'PY'
@@ -27,7 +29,7 @@ except Exception as e:
 PY
 )
   [ $first -eq 1 ] || echo "," >> "$tmp/det.json"; first=0
-  echo "\"$n\": $keys" >> "$tmp/det.json"
+  echo "\"$n\": {\"checked_by\": \"$pid\", \"reported\": $keys}" >> "$tmp/det.json"
   echo "$n: $keys"
 done
 echo "}" >> "$tmp/det.json"
